@@ -225,6 +225,8 @@ const ALPHA_QUICK: &[(&str, &str)] = &[
     ("n.md.md", ""),
     // a dot inside the file stem (dates, versions)
     ("v1.2.md", ""),
+    // a note below a directory whose name starts with a dot
+    (".h/g.md", ""),
     ("x.txt", "X"),
     // an upper-case extension is not a note (the library model reads lower-case `.md` only): it
     // must stay untouched although its text looks like a note
